@@ -707,6 +707,13 @@ func accumulated(t *Terminal, atoms map[string]bool, v Val, src, elem string) (o
 		}
 		return false, false
 	}
+	if m, isMap := v.(*MapV); isMap {
+		// the engine has already established: exhaustive index-order loop over Coll, one append per iteration, empty start
+		if ap(m.Coll) != src || ap(m.Elem) != elem {
+			return false, m.NonNil, "list is " + ap(v) + ", want [" + elem + " for " + src + "]"
+		}
+		return true, m.NonNil, ""
+	}
 	if app, isApp := v.(*AppendV); isApp {
 		if !ls.Gen || !ls.Exhausted {
 			return false, false, "append outside an exhaustive loop over " + src + ": " + ap(v)
